@@ -65,6 +65,7 @@ class CkptBackend(TrialBackend):
         self._ctx = "callback"
         self.plan = list(spec.get("plan") or [])   # replay: recorded world choices
         self.plan_out = []
+        self.straggler = None   # trial running on a very slow worker (spec["straggler_factor"])
         self.trial_of_lr = {}   # value of hyperparameter "lr" -> trial id (identifies PBT clone sources)
 
     # ---- scripted choices (recorded so that a replay is exact) ---------------
@@ -117,6 +118,8 @@ class CkptBackend(TrialBackend):
             # the base class refuses (unknown id / status not paused): nothing is resumed
             self.log.append(("resume_rejected", int(trial_id)))
             raise
+        if self.spec.get("straggler_factor") and self.straggler is None:
+            self.straggler = trial_id   # the first resumed trial gets the slow worker
         # accepted: the call is logged at the point where it was made (before the job was scheduled)
         self.log.insert(at, ("resume", int(trial_id), alive))
         # a trial resumed without checkpoint trains from scratch and writes a new one
@@ -176,6 +179,9 @@ class CkptBackend(TrialBackend):
         failing = []
         for t in running:
             k = self._choose(self.spec.get("max_steps", 3) + 1)
+            if t == self.straggler:
+                # heterogeneous job durations: this worker makes one epoch every straggler_factor polls
+                k = 1 if self.polls % self.spec["straggler_factor"] == 0 else 0
             # scripted job failure (spec["fail_den"] = n: one chance in n per trial and poll): the job
             # exits non-zero after the k reports of this poll (k = 0: before its next report)
             if self.spec.get("fail_den") and self._choose(self.spec["fail_den"]) == 0:
